@@ -39,7 +39,8 @@ def build_mesh(m):
         contour = Points([Point(*p) for p in m["points"]], m["ms"])
         mesh = mesher.Mesh_2D(contour, [], et, isOrganised=False)
     elif m["kind"] == "beam":
-        line = Line(Point(), Point(m["L"], 0, 0), m["ms"])
+        end = m.get("end", [m["L"], 0, 0])
+        line = Line(Point(), Point(*end), m["ms"])
         beam = _beam_of(m, line)
         mesh = mesher.Mesh_Beams([beam], et)
         _BEAMS[key] = beam
